@@ -51,6 +51,11 @@ def coq_opt(x) -> str:
 def to_coq(e) -> str:
     t = e[0]
     if t == "n":
+        if abs(e[1]).bit_length() > 12000 or abs(e[2]).bit_length() > 12000:
+            # a number of several thousand digits (Coq's reader overflows its stack on an 80 000-digit numeral, and the model
+            # leaves powers of that size undecided anyway): written as a term WITHOUT a value, so every comparison with it
+            # comes out undecided (code 2), never equal and never different
+            return "(EOp ODiv [ENum (1#1); ENum (0#1)])"
         return f"(ENum {coq_q(e[1], e[2])})"
     if t == "s":
         return f"(ESym {coq_string(e[1])})"
